@@ -47,6 +47,8 @@ pub struct LeanArchive {
     pub stats: Vec<(String, u64)>,
     pub n_frames: usize,
     pub lean_ms: u128,
+    /// the decompressed frames as sent to `agc-decode` (reused by `writer-check`)
+    pub plains: String,
 }
 
 fn name_of(h: &str) -> Result<String, String> {
@@ -98,7 +100,7 @@ fn parse_dump(reply: &str) -> Result<LeanArchive, String> {
             stats.push((k.to_string(), num(v)?));
         }
     }
-    Ok(LeanArchive { k: num(w[1])?, mm: num(w[2])?, seg_size: num(w[3])?, samples, violations, stats, n_frames: 0, lean_ms: 0 })
+    Ok(LeanArchive { k: num(w[1])?, mm: num(w[2])?, seg_size: num(w[3])?, samples, violations, stats, n_frames: 0, lean_ms: 0, plains: String::new() })
 }
 
 /// Run the Lean decoder on the bytes of an archive. ZSTD is done here, with the crate, frame by frame.
@@ -123,7 +125,95 @@ pub fn lean_decode(m: &mut Model, bytes: &[u8]) -> Result<LeanArchive, String> {
     let mut a = parse_dump(&r)?;
     a.n_frames = plains.len();
     a.lean_ms = t0.elapsed().as_millis();
+    a.plains = plains.join(",");
     Ok(a)
+}
+
+/// `compression_level` of `StreamingQueueConfig::default()` (the C01/C02 runs do not change it).
+pub fn default_level() -> i32 {
+    ragc_core::StreamingQueueConfig::default().compression_level
+}
+
+fn letters_to_codes(l: &[u8]) -> Vec<u8> {
+    l.iter().map(|&c| archive_letters().iter().position(|&x| x == c).unwrap_or(4) as u8).collect()
+}
+
+fn archive_letters() -> &'static [u8; 16] {
+    crate::gen::genomes::LETTERS
+}
+
+/// `x<base-64 little endian>r|d` -> (group, kind)
+fn parse_x_name(name: &str) -> Option<(u64, char)> {
+    const D: &[u8; 64] = b"0123456789ABCDEFGHIJKLMNOPQRSTUVWXYZabcdefghijklmnopqrstuvwxyz_#";
+    let b = name.as_bytes();
+    if b.len() < 3 || b[0] != b'x' {
+        return None;
+    }
+    let kind = b[b.len() - 1] as char;
+    if kind != 'r' && kind != 'd' {
+        return None;
+    }
+    let mut v: u64 = 0;
+    for &c in b[1..b.len() - 1].iter().rev() {
+        v = v.checked_mul(64)?.checked_add(D.iter().position(|&x| x == c)? as u64)?;
+    }
+    Some((v, kind))
+}
+
+/// The rows of the ZSTD oracle the archive itself cannot supply: for every segment part that was
+/// stored RAW (metadata 0) the writer did run ZSTD and found the result not shorter; the reference
+/// writer needs that answer to take the same branch. Computed with ragc's own entry points
+/// (`compress_segment_configured`, `compress_reference_segment`) on the stored content.
+fn raw_part_rows(path: &std::path::Path, level: i32) -> Result<Vec<String>, String> {
+    let mut a = ragc_common::Archive::new_reader();
+    a.open(path).map_err(|e| format!("open: {e:#}"))?;
+    let mut out = vec![];
+    for sid in 0..a.get_num_streams() {
+        let name = a.get_stream_name(sid).unwrap_or("").to_string();
+        let Some((g, kind)) = parse_x_name(&name) else { continue };
+        for pid in 0..a.get_num_parts(sid) {
+            let (data, md) = a.get_part_by_id(sid, pid).map_err(|e| format!("part {name}/{pid}: {e:#}"))?;
+            if md != 0 || data.is_empty() {
+                continue;
+            }
+            if kind == 'd' {
+                let f = ragc_core::segment_compression::compress_segment_configured(&data, level).map_err(|e| format!("{e:#}"))?;
+                out.push(format!("z.{level}.{}.{}", hex(&data), hex(&f)));
+            } else {
+                let (f, marker) = ragc_core::segment_compression::compress_reference_segment(&data).map_err(|e| format!("{e:#}"))?;
+                let plain = if marker == 1 { ragc_core::tuple_packing::bytes_to_tuples(&data) } else { data.clone() };
+                out.push(format!("r.{g}.{marker}.{}.{}", hex(&plain), hex(&f)));
+            }
+        }
+    }
+    Ok(out)
+}
+
+/// The reference writer of `Model/Writer.lean` against the real archive: Lean derives the
+/// decisions from the decoded archive, re-writes the archive from the INPUT and compares.
+/// Returns the driver's reply (`ok bytes ..`, `ok parts ..`, `diff ..`, `notok ..`, `none ..`, `err ..`).
+pub fn writer_check(m: &mut Model, bytes: &[u8], plains: &str, path: &std::path::Path,
+                    expect: &[(String, Vec<(String, Vec<u8>)>)]) -> Result<String, String> {
+    let level = default_level();
+    let input = if expect.is_empty() {
+        "!".to_string()
+    } else {
+        expect
+            .iter()
+            .map(|(s, cs)| {
+                let contigs: Vec<String> = cs.iter().map(|(n, l)| format!("{}/{}", hex(n.as_bytes()), hex(&letters_to_codes(l)))).collect();
+                format!("{}={}", hex(s.as_bytes()), contigs.join(","))
+            })
+            .collect::<Vec<_>>()
+            .join(";")
+    };
+    let rows = raw_part_rows(path, level)?;
+    let extra = if rows.is_empty() { "-".to_string() } else { rows.join(",") };
+    let req = format!("writer-check {} {} {} {} {}", hex(bytes), plains, level, input, extra);
+    if let Ok(keep) = std::env::var("VERIF_C02_KEEP") {
+        let _ = std::fs::write(PathBuf::from(keep).join("last_writer_request.txt"), format!("{req}\n"));
+    }
+    Ok(m.ask(&req))
 }
 
 fn first_diff_codes(a: &[u8], b: &[u8]) -> String {
@@ -299,6 +389,34 @@ pub fn run_case(workdir: &str, seed: u64, model: &mut Option<Model>, rep: &mut R
                             }
                             Ok(Err(e)) => rep.oracle_fail("decoder-vs-ragc", &format!("ragc's reader fails on an archive the decoder reads: {e}"), case.desc.clone()),
                             Err(p) => rep.oracle_fail("decoder-vs-ragc", &format!("ragc's reader panics on an archive the decoder reads: {p}"), case.desc.clone()),
+                        }
+                        // the reference writer (Model/Writer.lean) on the same input, with the decisions
+                        // read off this archive: must reproduce the file
+                        let t_w = std::time::Instant::now();
+                        match writer_check(m, &bytes, &a.plains, &out, &c01::expected(case)) {
+                            Err(e) => rep.notes.push(format!("writer-check not run: {e}")),
+                            Ok(r) => {
+                                let ms = t_w.elapsed().as_millis() as u64;
+                                rep.add("writer_ms_total", ms);
+                                if ms > 3000 {
+                                    rep.count("writer_slow_over_3s");
+                                }
+                                rep.count("writer_checked");
+                                if r.starts_with("ok bytes ") {
+                                    rep.count("writer_bytes_identical");
+                                    rep.count("writer_parts_identical");
+                                } else if r.starts_with("ok parts ") {
+                                    rep.count("writer_parts_identical");
+                                    rep.notes.push(format!("writer: parts identical but bytes differ: {}", crate::report::clip(&r)));
+                                } else if !a.violations.is_empty() {
+                                    // the archive already breaches a format rule (reported above): not an
+                                    // instance of the reference writer for that reason
+                                    rep.count("writer_skipped_decoder_violations");
+                                } else {
+                                    rep.count("writer_differs");
+                                    rep.disagree("writer-check: the reference writer (decisions read off the real archive) does not reproduce the real archive", case.desc.clone(), &r, "ok bytes (the real file)");
+                                }
+                            }
                         }
                         if rep.samples.len() < 3 {
                             rep.sample(json!({"case": case.desc, "archive_bytes": bytes.len(), "frames": a.n_frames, "lean_ms": a.lean_ms as u64,
